@@ -318,6 +318,106 @@ Proof.
   destruct Nb as (_ & _ & B3 & _). rewrite (eqb_false_of_neq _ _ B3). reflexivity.
 Qed.
 
+(* ---- strings.TrimRight(D, "/"): every trailing slash ------------------------------------------ *)
+Definition slashes (z : string) : Prop := all_chars (fun a => Ascii.eqb a ch_slash) z = true.
+Lemma trim_right_split D : exists z, D = trim_right_char ch_slash D +++ z /\ slashes z.
+Proof.
+  induction D as [|a D (z & E & Z)]; [exists ""; split; reflexivity|]. cbn [trim_right_char].
+  destruct (trim_right_char ch_slash D) as [|b r] eqn:T.
+  - destruct (Ascii.eqb a ch_slash) eqn:Ea.
+    + exists (String a z). cbn [String.append] in *. split; [f_equal; exact E|]. unfold slashes. cbn [all_chars]. rewrite Ea. exact Z.
+    + exists z. cbn [String.append] in *. split; [f_equal; exact E|exact Z].
+  - exists z. cbn [String.append]. split; [f_equal; exact E|exact Z].
+Qed.
+Lemma trim_right_idem c s : trim_right_char c (trim_right_char c s) = trim_right_char c s.
+Proof.
+  induction s as [|a s IH]; [reflexivity|]. cbn [trim_right_char]. destruct (trim_right_char c s) as [|b r] eqn:T.
+  - destruct (Ascii.eqb a c) eqn:E; [reflexivity|]. cbn [trim_right_char]. rewrite E. reflexivity.
+  - cbn [trim_right_char] in *. fold (trim_right_char c (String b r)). rewrite IH. reflexivity.
+Qed.
+Lemma slashes_comps z : slashes z -> Forall (eq "") (comps z).
+Proof.
+  unfold slashes. induction z as [|a z IH]; [repeat constructor|]. cbn [all_chars split_on]. intro H. apply andb_true_iff in H. destruct H as [H1 H2].
+  rewrite H1. constructor; [reflexivity|exact (IH H2)].
+Qed.
+Lemma slashes_clean z : slashes z -> z <> "" -> clean z = "/".
+Proof.
+  intros Z N. destruct z as [|a z]; [congruence|]. unfold slashes in Z. cbn [all_chars] in Z. apply andb_true_iff in Z. destruct Z as [Za Z].
+  apply Ascii.eqb_eq in Za. subst a. rewrite clean_eq. unfold st. cbn [rt]. rewrite Ascii.eqb_refl.
+  rewrite fold_push_empties by (apply (slashes_comps (String ch_slash z)); unfold slashes; cbn [all_chars]; rewrite Ascii.eqb_refl; exact Z). reflexivity.
+Qed.
+(* the directory name as the F: line spells it since fix 8e9dafb *)
+Lemma trimmed_dir_all D : clean D <> "." -> clean D <> "/" ->
+  let d := trim_right_char ch_slash D in d <> "" /\ rt d = rt D /\ fold_left (push (rt d)) (comps d) [] = st D.
+Proof.
+  intros N1 N2. cbn zeta. destruct (trim_right_split D) as (z & E & Z). set (d := trim_right_char ch_slash D) in *.
+  assert (Nd : d <> "").
+  { intro H. rewrite H in E. cbn [String.append] in E. subst z. destruct (string_dec D "") as [->|ND]; [apply N1; reflexivity|].
+    apply N2, slashes_clean; assumption. }
+  split; [exact Nd|]. assert (R : rt d = rt D) by (rewrite E; symmetry; apply rt_app, Nd).
+  split; [exact R|]. unfold st. rewrite R. destruct z as [|a z]; [rewrite sapp_nil_r in E; rewrite <- E; reflexivity|].
+  pose proof Z as Z0. unfold slashes in Z. cbn [all_chars] in Z. apply andb_true_iff in Z. destruct Z as [Za Z]. apply Ascii.eqb_eq in Za. subst a.
+  replace (comps D) with (comps (d +++ String ch_slash z)) by (rewrite <- E; reflexivity).
+  rewrite split_on_cat, fold_left_app. symmetry. apply fold_push_empties, slashes_comps, Z.
+Qed.
+Lemma clean_trim_right D : clean D <> "/" -> clean (trim_right_char ch_slash D) = clean D.
+Proof.
+  intro N2. destruct (string_dec (clean D) ".") as [E1|N1].
+  - (* D cleans to ".": its trimmed form does as well *)
+    destruct (trim_right_split D) as (z & E & Z). set (d := trim_right_char ch_slash D) in *.
+    destruct (string_dec d "") as [Ed|Nd].
+    + rewrite Ed in *. cbn [String.append] in E. subst z. destruct (string_dec D "") as [->|ND]; [reflexivity|].
+      exfalso. apply N2, slashes_clean; assumption.
+    + rewrite !clean_eq. assert (R : rt d = rt D) by (rewrite E; symmetry; apply rt_app, Nd). rewrite R. f_equal. f_equal.
+      unfold st. rewrite R. destruct z as [|a z]; [rewrite sapp_nil_r in E; rewrite <- E; reflexivity|].
+      unfold slashes in Z. cbn [all_chars] in Z. apply andb_true_iff in Z. destruct Z as [Za Z]. apply Ascii.eqb_eq in Za. subst a.
+      replace (comps D) with (comps (d +++ String ch_slash z)) by (rewrite <- E; reflexivity).
+      rewrite split_on_cat, fold_left_app. symmetry. apply fold_push_empties, slashes_comps, Z.
+  - destruct (trimmed_dir_all D N1 N2) as (_ & R & E). rewrite !clean_eq. unfold st at 1. rewrite E, R. reflexivity.
+Qed.
+
+Theorem join_dir_base_all n D : plain_base n -> clean D <> "." -> clean D <> "/" -> clean D = path_dir (clean n) ->
+  sanitize_archive_path (trim_right_char ch_slash D) (path_base n) = clean n.
+Proof.
+  intros PB N1 N2 ED. destruct (plain_base_clean n PB) as (S & Nb & V & En). set (b := path_base n) in *.
+  rewrite En, (path_dir_render _ _ _ Nb V), clean_eq in ED.
+  destruct (render_inj _ _ _ _ (vs_good _ _ (st_vs D)) (vs_good _ _ V) ED) as [Er Es].
+  apply (f_equal (@rev string)) in Es. rewrite !rev_involutive in Es.
+  destruct (trimmed_dir_all D N1 N2) as (Nd & Rd & Sd). set (d := trim_right_char ch_slash D) in *.
+  assert (Ev : clean (d +++ "/" +++ b) = clean n).
+  { rewrite clean_eq, En. unfold st. change (d +++ "/" +++ b) with (d +++ String ch_slash b).
+    rewrite (rt_app d _ Nd), split_on_cat, fold_left_app, Sd, Es, Rd, Er.
+    destruct Nb as (B1 & B2 & B3 & B4). rewrite (split_on_single _ _ B4). cbn [fold_left].
+    rewrite push_normal by (repeat split; assumption). reflexivity. }
+  unfold sanitize_archive_path, path_join2. rewrite (eqb_false_of_neq _ _ Nd). cbn [negb]. rewrite Ev.
+  assert (W : is_within d (clean n) = true); [|rewrite W; reflexivity].
+  unfold is_within. rewrite clean_idem.
+  assert (Cd : clean d = render (rt n) (rev S)).
+  { rewrite clean_eq. unfold st. rewrite Sd, Es, Rd, Er. reflexivity. }
+  rewrite Cd, En. destruct (render (rt n) (rev S) =? render (rt n) (rev (b :: S))); [reflexivity|].
+  assert (V' : vs (rt n) (b :: S)) by (cbn [vs]; left; auto).
+  rewrite !rt_render by (eapply vs_good; eassumption). rewrite Bool.eqb_reflx. cbn [negb].
+  rewrite !rel_comps_render by (eapply vs_good; eassumption). cbn [rev]. rewrite app_assoc, strip_prefix_app.
+  destruct Nb as (_ & _ & B3 & _). rewrite (eqb_false_of_neq _ _ B3). reflexivity.
+Qed.
+
+(* ---- whichever of the two the source uses (Model.dir_trim) ---------------------------------- *)
+Lemma clean_dot_nonempty D : clean D <> "." -> D <> "".
+Proof. intros H ->. apply H. reflexivity. Qed.
+Lemma clean_root_not D : clean D <> "/" -> D <> "/".
+Proof. intros H ->. apply H. reflexivity. Qed.
+Theorem join_dir_trim n D : plain_base n -> clean D <> "." -> clean D <> "/" -> clean D = path_dir (clean n) ->
+  sanitize_archive_path (dir_trim D) (path_base n) = clean n.
+Proof.
+  intros PB N1 N2 ED. unfold dir_trim. destruct installed_dir_trim_all.
+  - apply join_dir_base_all; assumption.
+  - apply join_dir_base; [exact PB|apply clean_dot_nonempty, N1|apply clean_root_not, N2|exact ED].
+Qed.
+Theorem clean_dir_trim D : clean D <> "/" -> clean (dir_trim D) = clean D.
+Proof.
+  intro N. unfold dir_trim. destruct installed_dir_trim_all; [apply clean_trim_right, N|apply clean_trim_slash, clean_root_not, N].
+Qed.
+
 (* rooted names are their own ancestors: filepath.Dir("/") = "/" *)
 Lemma path_dir_root : path_dir "/" = "/".
 Proof. reflexivity. Qed.
